@@ -266,7 +266,7 @@ Theorem hs_named_conserved_refuted :
     hitsound_copy psrc ptgt src tgt = Some out /\ ~ named_conserved src out.
 Proof.
   exists [0;1;2]%nat, [0]%nat, w1_src, w1_tgt.
-  eexists. repeat split; try (vm_compute; reflexivity).
+  eexists. repeat (match goal with |- _ /\ _ => split end); try (vm_compute; reflexivity).
   intro H. apply (msubb_complete atom_eqb) in H. vm_compute in H. discriminate.
 Qed.
 
@@ -281,7 +281,7 @@ Theorem hs_no_invention_refuted :
     hitsound_copy psrc ptgt src tgt = Some out /\ ~ no_invention src out.
 Proof.
   exists [0]%nat, [0;1]%nat, w2_src, w2_tgt.
-  eexists. repeat split; try (vm_compute; reflexivity).
+  eexists. repeat (match goal with |- _ /\ _ => split end); try (vm_compute; reflexivity).
   intros [H _]. apply (msubb_complete atom_eqb) in H. vm_compute in H. discriminate.
 Qed.
 
@@ -295,7 +295,7 @@ Theorem hs_semicolon_refuted :
     hitsound_copy psrc ptgt src tgt = Some out /\ ~ no_invention src out /\ ~ named_conserved src out.
 Proof.
   exists [0]%nat, [0;1]%nat, w3_src, w3_tgt.
-  eexists. repeat split; try (vm_compute; reflexivity).
+  eexists. repeat (match goal with |- _ /\ _ => split end); try (vm_compute; reflexivity).
   - intros [H _]. apply (msubb_complete atom_eqb) in H. vm_compute in H. discriminate.
   - intro H. apply (msubb_complete atom_eqb) in H. vm_compute in H. discriminate.
 Qed.
